@@ -129,6 +129,12 @@ namespace lang
         {
             str.replace(start_pos, to_replace.length(), replacement);
             start_pos += replacement.length();
+
+            if (to_replace.empty())
+            {
+                // an empty match doesn't consume anything, so step over the next character
+                ++start_pos;
+            }
         }
     }
 } // namespace lang
